@@ -4,7 +4,8 @@ lean/SRVerif/Model/FindCycle.lean and a census of what the routine returns.
 `find_cycle` is OUTSIDE the listed property C19 (whose anchors stop at toposort_all).  The natural claim
 "None iff acyclic, otherwise a directed cycle" is false for the code (kernel-checked witnesses:
 C19_find_cycle_not_sound / _not_complete / _not_a_cycle in Properties/C19Cycle.lean), so this helper
-never calls res.violation: it ties the code to the model by EXACT equality (the routine is deterministic
+never calls res.violation, and a difference between code and model is a NOTE (find_cycle may be corrected or
+rewritten without touching C19): it compares the code to the model by EXACT equality (the routine is deterministic
 once the iteration order of each successor collection is fixed: the model is given exactly the order in
 which Python iterates the collection that is passed), checks the proved statements on the real output
 (shape, meaning of None, genuine-cycle criterion) and records in res.dist how often the routine flags a
@@ -280,9 +281,17 @@ def check_cases(ctx, res, cases):
         n = len(v)
         ne = sum(len(ss) for _, ss in v)
         res.case(c, nontrivial=(n >= 2 and ne >= 1))
-        # correspondence: exact equality (the model gets the iteration order Python used)
+        # correspondence: exact equality (the model gets the iteration order Python used).  find_cycle is
+        # OUTSIDE C19's statement (toposort / toposort_all): a difference is recorded, it never breaks C19's
+        # tie — a corrected cycle finder, another visiting order, another way to refuse {} are all correct
+        # code as far as C19 is concerned.
         if m != o:
-            res.tie_broken("find_cycle: exact equality with the model", dict(c, view=v), m, o)
+            res.dist["find_cycle/DIFFERS from the model (note; outside C19)"] += 1
+            if not any(x.startswith("C19: find_cycle differs") for x in res.notes):
+                res.notes.append(
+                    "C19: find_cycle differs from the model Model/FindCycle.lean on some graph (first: "
+                    f"{v} -> code {o}, model {m}); find_cycle is outside C19's statement, so this is a note; "
+                    "the theorems of Properties/C19Cycle.lean describe the PINNED find_cycle only")
             continue
         if n == 0 or not well_formed(v):
             res.dist["find_cycle/malformed:" + (o.get("err") or "returns")] += 1
